@@ -271,7 +271,29 @@ def check_protocol(fx, R, cq, dim):
     if so in (want_so, want_so2):
         R.holds('Y4', cname + '::setOriginPoint', 'stores the point and its cell', fx.rel(fso['loc']), 'E-STATE')
     else:
-        R.undecided('Y4', cname + '::setOriginPoint', 'idiom not recognised: %s' % (so,))
+        # value rule: on EVERY path the stored origin point is the argument (two different points of one cell are different origins: direction, tMax and tDelta are computed from the point)
+        try:
+            pths = sym.Reader(fx).run(fso)
+        except sym.Unsupported as u:
+            pths = None
+        verdict = None
+        if pths:
+            pname = fso['params'][0]['name'] if fso.get('params') else 'originPoint'
+            for st_ in pths:
+                desc = ' && '.join(('' if c[2] else '!') + '(' + c[0] + ')' for c in st_.cond)
+                v_ = st_.fields.get(('this', 'rayOriginPoint_'))
+                untouched = v_ is None or (isinstance(v_, sp.Symbol) and v_.name == 'this.rayOriginPoint_')
+                if untouched:
+                    verdict = ('violated', 'on the path [%s] setOriginPoint() returns without storing the new origin point (the condition compares CELLS, not points): a second origin in the same cell as the '
+                               'previous one keeps the previous point, and setEndPoint() computes direction, first-crossing and per-cell parameters from that stale point - the cells reported are those of another '
+                               'segment, and the result depends on earlier casts' % desc)
+                    break
+                if not (isinstance(v_, sp.Symbol) and v_.name == 'arg:' + pname) and str(v_) != 'arg:' + pname:
+                    verdict = verdict or ('undecided', 'on the path [%s] the stored origin point is %s' % (desc, str(v_)[:80]))
+        if verdict and verdict[0] == 'violated':
+            R.violated('Y4', cname.split('<')[0] + '::setOriginPoint:stale-point', verdict[1] + ' [%s]' % cname, fx.rel(fso['loc']), 'E-STATE')
+        else:
+            R.undecided('Y4', cname + '::setOriginPoint', (verdict[1] if verdict else 'idiom not recognised: %s' % (so,)))
     # ---- Y4 completeness + Y5 formulas -------------------------------------------
     check_set_end_point(fx, R, cq, cname, dim, fse)
 
@@ -417,13 +439,20 @@ def check_set_end_point(fx, R, cq, cname, dim, f):
         return [a for a in e.atoms(sp.core.function.AppliedUndef) if 'getCellResolution' in str(a.func)] + \
             [a for a in e.free_symbols if str(a).endswith('cellResolution_')]
 
-    def feasible(extra, dval):
+    def feasible(extra, dval, same_cell=False):
         """Extra path conditions (not on the direction alone) are tried on witness origins of the origin cell [centre - res/2, centre + res/2):
-        lower border, centre, just below the upper border (res = 1, centre = 0)."""
+        lower border, centre, just below the upper border (res = 1, centre = 0).  Cell indexes of the two points along this axis: the end cell is the origin cell (`same_cell`: the ray crosses no border
+        along this axis - possible for every non-zero direction component) or its neighbour in the direction of travel."""
         for ov in (sp.Rational(-1, 2), sp.Integer(0), sp.Rational(49, 100)):
             ok = True
             for (cnd, pol) in extra:
-                v_ = cnd.subs({d: dval, o_sym: ov, c_sym: 0})
+                isub = {}
+                for y_ in cnd.free_symbols:
+                    if 'rayOriginIndexes_' in y_.name:
+                        isub[y_] = sp.Integer(5)
+                    elif 'rayEndIndexes_' in y_.name:
+                        isub[y_] = sp.Integer(5) if (same_cell or dval == 0) else sp.Integer(6 if dval > 0 else 4)
+                v_ = cnd.subs(isub).subs({d: dval, o_sym: ov, c_sym: 0})
                 v_ = v_.subs({a_: sp.Integer(1) for a_ in res_atoms(v_)})
                 v_ = sp.simplify(v_)
                 if v_ not in (sp.true, sp.false):
@@ -456,19 +485,35 @@ def check_set_end_point(fx, R, cq, cname, dim, f):
                 taken = None
                 break
             if truth:
-                fz = feasible(extra, val) if extra else sp.Integer(0)
-                if fz is None:
-                    taken = None
+                uses_idx = any('Indexes_' in y_.name for (cnd_, _p) in extra for y_ in cnd_.free_symbols)
+                for same_ in ((False, True) if (uses_idx and val != 0) else (False,)):
+                    fz = feasible(extra, val, same_) if extra else sp.Integer(0)
+                    if fz is None:
+                        taken = None
+                        break
+                    if fz is not False:
+                        taken.append((st, fz, extra, same_))
+                if taken is None:
                     break
-                if fz is not False:
-                    taken.append((st, fz, extra))
         inst = '%s::setEndPoint:step(direction=%s)' % (cname, sp.nsimplify(val) if val in (-1, 0, 1) else ('%.3g' % float(val)))
         if not taken:
             R.undecided('Y5', inst, 'witness selects no feasible path (or a condition is not evaluable)')
             continue
-        for (st, origin_w, extra) in taken:
-            tagx = '' if not extra else '[origin at %s of its cell]' % ('the lower border' if origin_w == sp.Rational(-1, 2) else 'the centre' if origin_w == 0 else 'the upper end')
+        for (st, origin_w, extra, same_) in taken:
+            tagx = '' if not extra else '[origin at %s of its cell%s]' % ('the lower border' if origin_w == sp.Rational(-1, 2) else 'the centre' if origin_w == 0 else 'the upper end',
+                                                                       ', end point in the same cell along this axis' if same_ else '')
             got = st.fields.get(('this', 'rayStep_[%s]' % iv))
+            if same_ and want != 0 and got == 0:
+                # no border is crossed along this axis: a zero step is sound only if this axis can never be selected, i.e. its first crossing is the largest number
+                tm0 = st.fields.get(('this', 'rayTMax_[%s]' % iv))
+                never = tm0 is not None and 'numeric_limits' in str(tm0) and 'max' in str(tm0)
+                if never:
+                    R.holds('Y5', inst + ':no-crossing' + tagx, 'zero step with tMax = max: the axis is never selected', fx.rel(f['loc']), 'E-ORD')
+                else:
+                    R.violated('Y5', '%s::setEndPoint:zero-step-finite-crossing' % cname, 'for a direction component of %s whose end point lies in the SAME cell along this axis (an oblique ray that crosses no border '
+                               'on this axis) the step is 0 but the first crossing parameter is %s, a finite number (conditions %s): next() selects this axis when that number is the smallest, moves by 0 and uses up '
+                               'one entry - the chain repeats a cell and stops one cell short of the end point' % ('%.3g' % float(val), str(tm0)[:100], [str(x[0]) for x in extra]), fx.rel(f['loc']), 'E-ORD')
+                continue
             R.check(got == want, 'Y5', '%s::setEndPoint:step-sign' % cname if got != want else inst + tagx,
                     'a direction component of %s gets step %s instead of %s: the number of cells still counts the steps along that axis, so the walk overshoots along another one' % (
                         '%.3g' % float(val), got, want), 'step = sign(direction)', fx.rel(f['loc']), 'E-ORD')
